@@ -284,6 +284,11 @@ def diffs (c : Case) (p : Pred) (o : Obs) : List (String × String) :=
 
 def execEvents (o : Obs) : Nat := (o.events.filter (fun e => e == "exec" || e == "query")).length
 
+/-- the statement is prepared and started without incident (no done context, no prepare or
+    run fault, transaction open) -/
+def Case.cleanStart (c : Case) : Bool :=
+  !c.ctxDone && !c.prepareErr && !c.runErr && !(c.onTx && c.txEnd != "after") && c.preCtx != "cancelled"
+
 /-- C13: every result set closed exactly once, connection back in the pool -/
 def holdsC13 (c : Case) (o : Obs) : Bool :=
   if c.op == "iter" && !c.calls.contains "close" then true else
@@ -297,6 +302,15 @@ def closeResults (c : Case) (o : Obs) : List String :=
 
 /-- C14 on an `iter` case -/
 def holdsC14 (c : Case) (o : Obs) : Bool :=
+  -- Get / GetAll: a driver failure while fetching a row that the call reaches (Get reads the
+  -- first row only, GetAll all of them) is reported, never presented as success or as a
+  -- normal empty result
+  if c.op == "get" || c.op == "getall" then
+    !(c.hasOutputs && c.cleanStart && !c.closeErr && c.badRow.isNone && !c.fewCols && c.extraSets == 0 &&
+      (c.op == "getall" || c.fetchErrAt == some 0) && c.fetchErrAt.isSome &&
+      (c.op == "get" || c.dests.startsWith "valid")) ||
+    ((o.returns.headD "") != "" && (o.returns.headD "") != "noRows")
+  else
   if c.op != "iter" then true else
   let cr := closeResults c o
   let pairs := c.calls.zip o.returns
@@ -381,6 +395,11 @@ def holdsC20 (c : Case) (o : Obs) : Bool :=
   (if c.ctx == "nil" then o.eventCtx.all (· == "-")
    else if c.ctx == "marker" && c.cancelAt.isNone then o.eventCtx.all (· == "MARK")
    else o.eventCtx.all (fun x => x.startsWith "MARK"))
+
+/-- C09, transaction half: what a TX executes runs on the transaction's connection (a cached
+    DB-level statement must be re-bound to it, not executed through the pool) -/
+def holdsC09tx (c : Case) (o : Obs) : Bool :=
+  !c.onTx || o.eventConn.all (· == o.eventConn.headD 0)
 
 /-- C12: everything a TX runs is on its connection between begin and end; one finisher wins -/
 def holdsC12 (c : Case) (o : Obs) : Bool :=
